@@ -38,6 +38,10 @@ func (s *Schema) RemoveType(typ string) {
 	for i := range s.Types {
 		if s.Types[i].Name == typ {
 			s.Types = append(s.Types[0:i], s.Types[i+1:]...)
+
+			// Names are unique and the slice is now shorter
+			// than the range of the loop.
+			return
 		}
 	}
 }
